@@ -2,6 +2,7 @@ import RuxModel.Drv.Common
 import RuxModel.Generated.Code
 import RuxModel.Tie.Pattern
 import RuxModel.Tie.Cache
+import RuxModel.Model.Render
 /-
   Line-protocol driver for the GENERATED definitions (Generated/Code.lean): `gendriver gencode` reads op lines and
   answers with what the definitions translated from /repo compute.  The harness engine `gencode` runs the same ops on
@@ -14,6 +15,9 @@ import RuxModel.Tie.Cache
     compile <path>                       -> ok <first> <start> <spath> <regex> <names> | panic
     build <path> <k=v,...>               -> <path> <sorted query pairs>
     cnew <cap> | cset <k> <id> | cget <k> | cdel <k> | chas <k> | clen | ckeys
+    winit <script> | wh <code> | wr <bytes> | fl | wst                                   (responseWriter)
+    rinit <content type|-> <script> | rblob <ct> <data> | rtext <data> | rhtml <data> | rjson | rjsonp <cb> | rxml |
+    rauto <accept header> | rst           (pkg/render on a plain writer; the value rendered is the string "x")
 -/
 open Rux Rux.Drv Rux.GoRt
 
@@ -50,6 +54,9 @@ structure St where
   cr : Gen.CR Nat
   rw : Gen.RW
   script : List (Nat × Bool)
+  hw : HW := {}
+  hscript : List Bool := []      -- errors of the coming writes of the plain writer
+  herr : Bool := false           -- what the last renderer returned
 
 def evS : WEv → String
   | .writeHeader c => "wh:" ++ toString c
@@ -109,7 +116,71 @@ def stepW (st : St) : List String → Option (St × String)
       (if st.rw.log.isEmpty then "-" else String.intercalate "," (st.rw.log.map evS)))
   | _ => none
 
+/-- the answer of the plain writer to its k-th write: the k-th script entry (no error when the script is exhausted) -/
+def wansOf (sc : List Bool) (w : HW) : Bool := (sc[w.log.length - 1]?).getD false
+
+def hevS : HEv → String
+  | .write b => "wr:" ++ hexOf b
+
+/-- `enc.Encode("x")` of encoding/json resp. encoding/xml: ONE write of the encoding (json adds a newline) -/
+def encJSON (sc : List Bool) (_e : JEnc) (w : HW) : HW × Bool :=
+  let w' := HW.write w [34, 120, 34, 10]
+  (w', wansOf sc w')
+def encXML (sc : List Bool) (_e : JEnc) (w : HW) : HW × Bool :=
+  let w' := HW.write w [60, 115, 116, 114, 105, 110, 103, 62, 120, 60, 47, 115, 116, 114, 105, 110, 103, 62]
+  (w', wansOf sc w')
+
+def stepR (st : St) : List String → Option (St × String)
+  | ["rinit", ct, sc] =>
+    match unhex ct, parseScript sc with
+    | some ct, some sc =>
+      let w : HW := if ct.isEmpty then {} else HW.set {} [0x43, 0x6F, 0x6E, 0x74, 0x65, 0x6E, 0x74, 0x2D, 0x54, 0x79, 0x70, 0x65] ct
+      some ({ st with hw := w, hscript := sc.map (·.2), herr := false }, "ok")
+    | _, _ => none
+  | ["rblob", ct, d] =>
+    match unhex ct, unhex d with
+    | some ct, some d => let r := Gen.renderBlob st.hw ct d (wansOf st.hscript); some ({ st with hw := r.1, herr := r.2 }, "ok")
+    | _, _ => none
+  | ["rtext", d] =>
+    match unhex d with
+    | some d => let r := Gen.renderText st.hw d (wansOf st.hscript); some ({ st with hw := r.1, herr := r.2 }, "ok")
+    | none => none
+  | ["rhtml", d] =>
+    match unhex d with
+    | some d => let r := Gen.renderHTML st.hw d (wansOf st.hscript); some ({ st with hw := r.1, herr := r.2 }, "ok")
+    | none => none
+  | ["rjson"] =>
+    let r := Gen.JSONR.Render default st.hw () (wansOf st.hscript) (encJSON st.hscript)
+    some ({ st with hw := r.1, herr := r.2 }, "ok")
+  | ["rjsonp", cb] =>
+    match unhex cb with
+    | some cb =>
+      let r := Gen.JSONPR.Render { callback := cb } st.hw () (wansOf st.hscript) (encJSON st.hscript)
+      some ({ st with hw := r.1, herr := r.2 }, "ok")
+    | none => none
+  | ["rxml"] =>
+    let r := Gen.XMLR.Render default st.hw () (wansOf st.hscript) (encXML st.hscript)
+    some ({ st with hw := r.1, herr := r.2 }, "ok")
+  | ["rauto", acc] =>
+    match unhex acc with
+    | some acc =>
+      let env : RAEnv HW :=
+        { acceptHeader := fun _ => acc, parseAccept := Rux.Render.parseAccept,
+          json := fun w => Gen.JSONR.Render default w () (wansOf st.hscript) (encJSON st.hscript),
+          xml := fun w => Gen.XMLR.Render default w () (wansOf st.hscript) (encXML st.hscript),
+          text := fun w => Gen.renderText w [120] (wansOf st.hscript) }
+      let r := Gen.renderAuto st.hw none () env [116, 101, 120, 116, 47, 112, 108, 97, 105, 110]
+      some ({ st with hw := r.1, herr := r.2 }, "ok")
+    | none => none
+  | ["rst"] =>
+    some (st, hexOf ((hdrGet st.hw.header [0x43, 0x6F, 0x6E, 0x74, 0x65, 0x6E, 0x74, 0x2D, 0x54, 0x79, 0x70, 0x65]).headD []) ++ " " ++
+      boolS st.herr ++ " " ++ (if st.hw.log.isEmpty then "-" else String.intercalate "," (st.hw.log.map hevS)))
+  | _ => none
+
 def step (st : St) (toks : List String) : St × String :=
+  match stepR st toks with
+  | some r => r
+  | none =>
   match stepC st.cr toks with
   | some (cr, out) => ({ st with cr := cr }, out)
   | none =>
